@@ -5,7 +5,62 @@ from __future__ import annotations
 from typing import Any
 
 from . import net
+from . import sched as S
 from . import workload as W
+
+
+_AST_CACHE: dict = {}
+
+
+def _kbi_try_ranges(filename: str) -> list:
+    """[(first_body_line, last_body_line, function_name)] of try-blocks that catch KeyboardInterrupt."""
+    r = _AST_CACHE.get(filename)
+    if r is not None:
+        return r
+    import ast
+
+    out = []
+    try:
+        tree = ast.parse(open(filename).read())
+    except (OSError, SyntaxError):
+        _AST_CACHE[filename] = out
+        return out
+
+    def catches(h) -> bool:
+        t = h.type
+        if t is None:
+            return True
+        names = [t] if not isinstance(t, ast.Tuple) else list(t.elts)
+        return any(isinstance(n, ast.Name) and n.id in ("KeyboardInterrupt", "BaseException") for n in names)
+
+    def visit(node, func) -> None:
+        for child in ast.iter_child_nodes(node):
+            f = child.name if isinstance(child, (ast.FunctionDef, ast.AsyncFunctionDef)) else func
+            if isinstance(child, ast.Try) and any(catches(h) for h in child.handlers) and child.body:
+                out.append((child.body[0].lineno, child.body[-1].end_lineno, func))
+            visit(child, f)
+
+    visit(tree, "<module>")
+    _AST_CACHE[filename] = out
+    return out
+
+
+def enclosing_interrupt_handler(frame) -> str:
+    """Which `except KeyboardInterrupt` of the engine will receive an interrupt raised in `frame`:
+    walk outwards; first engine frame whose current line lies in the body of such a try-block."""
+    f = frame
+    while f is not None:
+        fn = f.f_code.co_filename
+        if "/schemathesis/" in fn:
+            best = None
+            for a, b, func in _kbi_try_ranges(fn):
+                if a <= f.f_lineno <= b and func == f.f_code.co_name:
+                    if best is None or a >= best[0]:
+                        best = (a, b, func)
+            if best is not None:
+                return fn.split("/schemathesis/")[-1] + ":" + best[2]
+        f = f.f_back
+    return "none"
 
 
 class SimFault(RuntimeError):
@@ -27,22 +82,44 @@ def install_ctrl_c(ctx: W.RunContext) -> None:
     def eligible() -> bool:
         if not state["armed"] or not ctx.delivered:
             return False
+        if not state.get("engine_started"):
+            if not any(type(e).__name__ == "EngineStarted" for _, e in ctx.delivered):
+                return False  # before the stream has yielded EngineStarted there is no run to speak of
+            state["engine_started"] = True
         last = ctx.delivered[-1][1]
         return type(last).__name__ != "EngineFinished"
 
     def fire(where: str, detail: Any) -> None:
+        import sys
+
         state["armed"] = False
-        ctx.ctrl_c_fired = {"where": where, "detail": detail, "after_event": len(ctx.delivered), "seq": sched.next_seq()}
+        # innermost engine frame = where the interrupt lands (file:function, no line numbers: robust to small edits)
+        at = "?"
+        f = sys._getframe(1)
+        while f is not None:
+            fn = f.f_code.co_filename
+            if "/schemathesis/engine/" in fn or "/schemathesis/cli/" in fn:
+                at = fn.split("/schemathesis/")[-1] + ":" + f.f_code.co_name
+                break
+            f = f.f_back
+        ctx.ctrl_c_fired = {
+            "where": where,
+            "detail": detail,
+            "at": at,
+            "handler": enclosing_interrupt_handler(sys._getframe(1)),
+            "after_event": len(ctx.delivered),
+            "seq": sched.next_seq(),
+        }
         raise KeyboardInterrupt
 
-    def line_hook(st, code, line) -> None:
+    def intr_hook(st, code, offset, kind) -> None:
         # only while the consumer thread is executing *engine* code (the generator and what it calls):
         # a Ctrl-C landing in the consumer's own loop abandons the stream, which is not the engine's doing
         if st is not main or "/schemathesis/engine/" not in code.co_filename or not eligible():
             return
         state["lines"] += 1
         if at_line is not None and state["lines"] == at_line:
-            fire("line", f"{code.co_filename.split('/schemathesis/')[-1]}:{line}:{code.co_name}")
+            fire("instr", f"{code.co_filename.split('/schemathesis/')[-1]}:{S.line_of(code, offset)}:{code.co_name}:{kind}")
 
     def block_hook(st, kind) -> None:
         if st is not main or not eligible():
@@ -53,7 +130,7 @@ def install_ctrl_c(ctx: W.RunContext) -> None:
         if at_block is not None and state["blocks"] == at_block:
             fire("block", kind)
 
-    sched.line_hook = line_hook
+    sched.intr_hook = intr_hook
     sched.block_hook = block_hook
     ctx.extra["ctrl_c_state"] = state
 
